@@ -372,43 +372,74 @@ def _eq(a, b):
     return bool(a == b)
 
 
-def snapshot(x, full=False):
-    """History-independent snapshot of an object: digests per field."""
+def snapshot(x, cold=False):
+    """History-independent snapshot of an object: digests per field.
+
+    ``cold`` = only observations that do not fill any lazy cache of the object itself
+    (repr; for forms: signature / arguments / coefficients computed on a fresh Form over the
+    same integrals, raw metadata).  A full snapshot additionally reads the cached accessors
+    (hash, signature(), arguments(), coefficients(), ...) and cross-checks them against the
+    from-scratch values (field ``cachecheck``)."""
     s = {}
     if isinstance(x, (Expr, Form)) and ops.is_cyclic(x):
         # a node that is its own descendant: nothing else can be computed safely
-        return {"repr": "!cyclic", "hash": "!cyclic", "cyclic": 1}
+        return {"repr": "!cyclic", "cyclic": 1}
 
     def put(k, f):
         try:
             v = f()
-            s[k] = v if isinstance(v, (int, str)) and not full else _sha(repr(v))
+            s[k] = v if isinstance(v, (int, str)) else _sha(repr(v))
         except BaseException as ex:  # noqa: B036
             s[k] = "!" + type(ex).__name__
 
     put("repr", lambda: _sha(repr(x)))
-    put("hash", lambda: hash(x))
     if isinstance(x, Expr):
         put("shape", lambda: (x.ufl_shape, x.ufl_free_indices, x.ufl_index_dimensions))
-        put("sig", lambda: ops.expr_signature(x))
-        put("str", lambda: _sha(str(x)))
+        if not cold:
+            put("hash", lambda: hash(x))
+            put("sig", lambda: ops.expr_signature(x))
+            put("str", lambda: _sha(str(x)))
     elif isinstance(x, Form):
-        put("sig", lambda: x.signature())
+        fresh = {}
+
+        def fr():
+            if not fresh:
+                fresh["v"] = _fresh_args(Form(list(x.integrals())))
+            return fresh["v"]
+
         put("sigfresh", lambda: ops.obs_sig_fresh(x))
-        put("args", lambda: [repr(a) for a in x.arguments()])
-        put("coeffs", lambda: [repr(a) for a in x.coefficients()])
-        put("consts", lambda: [repr(a) for a in x.constants()])
+        put("argsfresh", fr)
         put("meta", lambda: ops.obs("meta", x))
         put(
             "mdraw",
             lambda: [sorted((repr(k), repr(v)) for k, v in it.metadata().items()) for it in x.integrals()],
         )
-        put("argsfresh", lambda: _fresh_args(x))
+        if not cold:
+            put("hash", lambda: hash(x))
+            put("sig", lambda: x.signature())
+            put("args", lambda: [repr(a) for a in x.arguments()])
+            put("coeffs", lambda: [repr(a) for a in x.coefficients()])
+            put("consts", lambda: [repr(a) for a in x.constants()])
+            # the cached accessors must agree with what the integrals say
+            try:
+                bad = []
+                fa, fc = fr()
+                if sorted(repr(a) for a in x.arguments()) != sorted(fa):
+                    bad.append("args")
+                if sorted(repr(c) for c in x.coefficients()) != sorted(fc):
+                    bad.append("coeffs")
+                if x.signature() != ops.obs_sig_fresh(x):
+                    bad.append("sig")
+                s["cachecheck"] = "ok" if not bad else ",".join(bad)
+            except BaseException:  # noqa: B036
+                # an accessor that raises (ill-posed form) is not a disagreement
+                pass
     elif isinstance(x, BaseForm):
-        put("args", lambda: [repr(a) for a in x.arguments()])
-        put("coeffs", lambda: [repr(a) for a in x.coefficients()])
+        if not cold:
+            put("hash", lambda: hash(x))
+            put("args", lambda: [repr(a) for a in x.arguments()])
+            put("coeffs", lambda: [repr(a) for a in x.coefficients()])
     elif isinstance(x, dict):
-        s.pop("hash", None)
         put("items", lambda: [(repr(k), repr(v)) for k, v in x.items()])
     return s
 
@@ -423,24 +454,26 @@ def _fresh_args(form):
 
 
 def xop_snap(node, op):
-    """['snap', None, [slots]] -> {slot: snapshot}"""
-    _, _, slots = op
+    """['snap', None, [slots], cold?] -> {slot: snapshot}"""
+    slots = op[2]
+    cold = bool(op[3]) if len(op) > 3 else False
     out = {}
     for s in slots:
         if s in node.slots:
-            out[str(s)] = snapshot(node.slots[s])
+            out[str(s)] = snapshot(node.slots[s], cold)
     return out
 
 
 def xop_snapall(node, op):
-    """['snapall', None, lo, hi] -> snapshots of every live slot in [lo, hi)."""
-    _, _, lo, hi = op
+    """['snapall', None, lo, hi, cold?] -> snapshots of every live slot in [lo, hi)."""
+    lo, hi = op[2], op[3]
+    cold = bool(op[4]) if len(op) > 4 else False
     out = {}
     for s in sorted(node.slots):
         if lo <= s < hi:
             x = node.slots[s]
             if isinstance(x, (Expr, BaseForm, dict)):
-                out[str(s)] = snapshot(x)
+                out[str(s)] = snapshot(x, cold)
     return out
 
 
